@@ -174,10 +174,7 @@ def chk_generate1(ctx):
     R = Result('generate1')
     for n in ctx.get('gen_sizes', [2]):
         W = World(ctx['mod'], n); g = W.mk_grid('g', n=n)
-        gen = W.st.alloc(40, 'generator', 'input'); kn = W.st.alloc(8 * (n + 2), 'generator_knots', 'input')
-        W.ex.poke(W.st, gen, 0, bv(g['vec'].base)); W.ex.poke(W.st, gen, 8, bv(g['ctrl'].base))
-        W.ex.poke(W.st, gen, 16, bv(kn.base)); W.ex.poke(W.st, gen, 24, bv(kn.base + 8 * (n + 2))); W.ex.poke(W.st, gen, 32, bv(kn.base + 8 * (n + 2)))
-        for i, k in enumerate([g['pts'][0]] + g['pts'][:n] + [g['pts'][n - 1]]): W.ex.poke(W.st, kn, 8 * i, k)
+        gen = W.mk_generator('generator', g, [g['pts'][0]] + g['pts'][:n] + [g['pts'][n - 1]])
         mem = W.out('mem', 24)
         outs = explore(ctx, R, W, '@w_generate1', [bv(mem.base), bv(gen.base)], 'generate1/n%d' % n)
         W.vars['g_n'] = bv(n)
